@@ -126,7 +126,7 @@ def run(chk):
         sizes = [r.choice([4, 16, 60]) for _ in range(4)] if not big else [r.choice([215, 240, 270, 460]) for _ in range(3)]
         bufs = []
         for sz in sizes:
-            b = bytearray(recheck.make_buffer(r, [sexp], sz, regen.ALPHA + b"\0\xff"))
+            b = bytearray(recheck.make_buffer(r, [sexp], sz, regen.ALPHA + b"\0\xff\n\r"))
             if big:
                 # gaps exactly at, one below and one above the jump bounds: plant head and tail pieces explicitly
                 for t_i, t in enumerate(toks):
